@@ -143,10 +143,12 @@ impl ValueStack {
         self.data[index]
     }
 
-    /// Returns the very first item
+    /// Truncates the stack to `index` values, an `index` above the current height changes nothing.
+    ///
+    /// Returns the item that was on top
     pub fn clear_until(&mut self, index: usize) -> Value {
         let res = self.last();
-        self.count = index;
+        self.count = self.count.min(index);
         res
     }
 
